@@ -259,4 +259,95 @@ theorem flatKvs_uniq : ∀ (xs : List (String × Node)) (b : String),
     · exact flatKvs_uniq xs b (fun y hy => hg y (List.mem_cons_of_mem _ hy)) e he
 end
 
+/-! ## handleExisting / diff: the shape of ties -/
+
+theorem rightBlock_uniq (l : AMap Node) (p : String) (e : String × Node) : Uniq (rightBlock l p e) := by
+  simp only [rightBlock]
+  cases child l e.1 with
+  | some _ => exact Uniq.of_length_le (Nat.zero_le _)
+  | none => exact Uniq.of_length_le (Nat.le_refl _)
+
+theorem mismatch_tie {x y : Node} {b : String} (hk : x.kind ≠ y.kind) (hy : Good y) (hb : b ≠ "") :
+    TieShape (emitNode x y b) := by
+  rw [emitNode_of_kind_ne _ hk]
+  cases y with
+  | leaf v => simp only [flatNode]; exact TieShape.del_add b v
+  | list ys =>
+    simp only [flatNode]
+    exact TieShape.del_cons (flatList_uniq ys b 0 (fun x hx => hy.of_list_mem hx))
+      (fun m hm => flatList_path_ne (fun x hx => (hy.of_list_mem hx).2) hm)
+  | cont r =>
+    have hu := flatNode_uniq (.cont r) b hy hb
+    simp only [flatNode] at hu ⊢
+    exact TieShape.del_cons hu (fun m hm => flatKvs_path_ne (by simpa [Node.SafeKeys] using hy.2) hb hm)
+
+/-- the two loops of diff(): left blocks and right Deletes never share a path -/
+theorem cont_tie {l r : AMap Node} (hl : Good (.cont l)) (hr : Good (.cont r)) (p : String)
+    (hblocks : ∀ e ∈ l, TieShape (leftBlock r p e)) : TieShape (emitLeft l r p ++ emitRight r l p) := by
+  rw [emitLeft_eq_flatMap, emitRight_eq_flatMap]
+  refine TieShape.append ?_ ?_ (filter_disj ?_)
+  · exact TieShape.flatMap (fun q => blocks_pairwise hl p q _ (leftBlock_under hl hr p)) hblocks
+  · exact (Uniq.flatMap (fun q => blocks_pairwise hr p q _ (fun e _ => rightBlock_under l p e))
+      (fun e _ => rightBlock_uniq l p e)).tieShape
+  · intro a ha c hc e
+    obtain ⟨ea, hea, hma⟩ := List.mem_flatMap.mp ha
+    obtain ⟨ec, hec, hmc⟩ := List.mem_flatMap.mp hc
+    have u1 := leftBlock_under hl hr p ea hea a hma
+    have u2 := rightBlock_under l p ec c hmc
+    rw [e] at u1
+    have hk := key_eq_of_under (hl.of_cont_mem hea).2.1 (hr.of_cont_mem hec).2.1 u1 u2
+    simp only [rightBlock] at hmc
+    cases hch : child l ec.1 with
+    | some _ => rw [hch] at hmc; cases hmc
+    | none =>
+      rw [← hk, child_of_noSuffix l (hl.of_cont_mem hea).2.2] at hch
+      have := AMap.get?_of_mem hl.1.sorted (show (ea.1, ea.2) ∈ l from hea)
+      rw [this] at hch; cases hch
+
+mutual
+theorem emitNode_tie : ∀ (x y : Node) (b : String), Good x → Good y → b ≠ "" → TieShape (emitNode x y b)
+  | .cont l, .cont r, b, hx, hy, _ => by
+    simp only [emitNode]
+    exact cont_tie hx hy b (emitLeft_tie l r b (fun e he => hx.of_cont_mem he) hy)
+  | .list xs, .list ys, b, hx, _, _ => by
+    simp only [emitNode]
+    split
+    · exact fun q => Or.inl rfl
+    · exact TieShape.del_cons (flatList_uniq xs b 0 (fun x hx' => hx.of_list_mem hx'))
+        (fun m hm => flatList_path_ne (fun x hx' => (hx.of_list_mem hx').2) hm)
+  | .leaf a, .leaf c, b, _, _, _ => by
+    simp only [emitNode]
+    split
+    · exact fun q => Or.inl rfl
+    · exact (Uniq.of_length_le (Nat.le_refl _)).tieShape
+  | .leaf _, .list _, _, _, hy, hb => mismatch_tie (by simp [Node.kind]) hy hb
+  | .leaf _, .cont _, _, _, hy, hb => mismatch_tie (by simp [Node.kind]) hy hb
+  | .list _, .leaf _, _, _, hy, hb => mismatch_tie (by simp [Node.kind]) hy hb
+  | .list _, .cont _, _, _, hy, hb => mismatch_tie (by simp [Node.kind]) hy hb
+  | .cont _, .leaf _, _, _, hy, hb => mismatch_tie (by simp [Node.kind]) hy hb
+  | .cont _, .list _, _, _, hy, hb => mismatch_tie (by simp [Node.kind]) hy hb
+theorem emitLeft_tie : ∀ (xs : List (String × Node)) (r : AMap Node) (b : String),
+    (∀ e ∈ xs, Good e.2 ∧ SafeKey e.1 ∧ hasIdxSuffix e.1 = false) → Good (.cont r) →
+    ∀ e ∈ xs, TieShape (leftBlock r b e)
+  | [], _, _, _, _, e, he => by cases he
+  | (k, n) :: rest, r, b, hxs, hr, e, he => by
+    rcases List.mem_cons.mp he with rfl | he
+    · have h0 : Good n ∧ SafeKey k ∧ hasIdxSuffix k = false := hxs (k, n) (List.mem_cons_self ..)
+      simp only [leftBlock, child_of_noSuffix r h0.2.2]
+      cases hg : AMap.get? r k with
+      | none => exact (flatNode_uniq n _ h0.1 (toPath_ne_empty h0.2.1.1)).tieShape
+      | some y => exact emitNode_tie n y _ h0.1 (hr.of_get? hg) (toPath_ne_empty h0.2.1.1)
+    · exact emitLeft_tie rest r b (fun y hy => hxs y (List.mem_cons_of_mem _ hy)) hr e he
+end
+
+/-- per path, `emit` yields nothing, one modification, or a Delete followed by an Add -/
+theorem emit_tieShape {l r : AMap Node} (hl : Good (.cont l)) (hr : Good (.cont r)) : TieShape (emit l r) := by
+  simp only [emit, emitNode]
+  exact cont_tie hl hr "" (emitLeft_tie l r "" (fun e he => hl.of_cont_mem he) hr)
+
+theorem diff_tieShape {l r : AMap Node} (hl : Good (.cont l)) (hr : Good (.cont r)) : TieShape (diff l r) := by
+  intro q
+  rw [diff, sortMods_filter]
+  exact emit_tieShape hl hr q
+
 end Ytk
